@@ -110,9 +110,45 @@ Proof.
     + destruct (find_alt cur (it_alts it)) as [v|].
       * apply den_rescale_up, den_of_amount.
       * destruct (find_rate ic cur rates) as [r|]; [|exact I].
-        cbn [oden]. apply (den_rescale _ (prod rnd (raise isub (of_amount (it_price it))) (toQ r))).
-        apply den_mul; [apply den_rescale_up, den_of_amount|reflexivity].
+        cbn [oden]. apply (den_rescale _ (prod rnd (raise c (raise isub (of_amount (it_price it)))) (toQ r))).
+        apply den_mul; [|reflexivity]. unfold match_precision. cbn [exp zero_of].
+        apply den_rescale_up, den_rescale_up, den_of_amount.
   - apply den_rescale_up, den_of_amount.
+Qed.
+
+(* a price converted by an exchange rate, written with no more decimals than the document's
+   currency (and in a currency of no more decimals): the exact product price x rate rounded ONCE,
+   to the currency's decimals (ExchangeRate.Convert as repaired; before, the product was first
+   rounded to the decimals of the price: JPY 1550 x 0.0062 gave 10.00 EUR instead of 9.61) *)
+Lemma converted_price_rounded_once it cur c rates ic isub r :
+  it_cur it = Some (ic, isub) -> (ic =? cur)%Z = false -> find_alt cur (it_alts it) = None ->
+  find_rate ic cur rates = Some r -> (exp (it_price it) <= c)%nat -> (isub <= c)%nat ->
+  exists p, item_price it cur c rates = Some p /\ exp p = c /\ toQ p == rnd c (toQ (it_price it) * toQ r).
+Proof.
+  intros Hc Hne Ha Hr He Hs. unfold item_price. rewrite Hc, Hne, Ha, Hr.
+  set (P := match_precision (rescale_up (it_price it) isub) (zero_of c)).
+  assert (EP : exp P = c).
+  { unfold P, match_precision. cbn [exp zero_of]. rewrite !rescale_up_exp. lia. }
+  assert (QP : toQ P == toQ (it_price it)).
+  { unfold P, match_precision. rewrite !rescale_up_toQ. reflexivity. }
+  eexists. split; [reflexivity|]. split; [apply rescale_exp|].
+  rewrite rescale_same by (rewrite mul_exp; exact EP).
+  rewrite toQ_mul, EP. rewrite (rnd_compat c (toQ P * toQ r) (toQ (it_price it) * toQ r)); [reflexivity|].
+  rewrite QP. reflexivity.
+Qed.
+
+(* ... and the hypothesis on the decimals of the price is needed: a price with MORE decimals than
+   the currency is still rounded twice (at its own decimals, then to the currency's):
+   0.0999 x 0.05 = 0.004995 -> 0.0050 -> 0.01, rounded once 0.00 *)
+Lemma converted_price_rounded_once_beyond_currency_decimals_refuted :
+  exists it cur c rates ic isub r p,
+    it_cur it = Some (ic, isub) /\ (ic =? cur)%Z = false /\ find_alt cur (it_alts it) = None /\
+    find_rate ic cur rates = Some r /\ (isub <= c)%nat /\
+    item_price it cur c rates = Some p /\ ~ toQ p == rnd c (toQ (it_price it) * toQ r).
+Proof.
+  exists (mkItem (mkA 999 4) (Some (2%Z, 2%nat)) []), 1%Z, 2%nat, [mkXrate 2 1 (mkA 5 2)], 2%Z, 2%nat, (mkA 5 2).
+  eexists. do 4 (split; [reflexivity|]). split; [cbn; lia|]. split; [vm_compute; reflexivity|].
+  vm_compute. discriminate.
 Qed.
 
 (* ------------------------------------------------------------------------------------------ *)
